@@ -483,7 +483,12 @@ func c05ParseI(s string) (int64, bool) {
 func c05Run(_ *testing.T, ops []string, o *Out) {
 	media := uint32(c05Media)
 	rec := twcc.NewRecorder(c05Sender)
+	// every packet a build returned belongs to the caller: it is kept (by pointer) and re-rendered after every later
+	// op — the consumer may marshal it whenever it gets round to sending it (retain_test.go)
+	defer o.EndKept()
+	nBuild := 0
 	for _, op := range ops {
+		o.CheckKept()
 		f := strings.Fields(op)
 		name, m := kv(op)
 		switch {
@@ -529,6 +534,8 @@ func c05Run(_ *testing.T, ops []string, o *Out) {
 			for _, p := range pkts {
 				o.P("%s", c05FbLine(p))
 			}
+			nBuild++
+			o.KeepRTCPs(fmt.Sprintf("build#%d", nBuild), pkts)
 		default:
 			o.P("bad-op")
 		}
